@@ -116,6 +116,8 @@ func Explore[E any](r *vreport.Report, cfg Config[E]) Result {
 					res.States++
 					if res.States <= 400000 {
 						r.Distinct("state_hashes", c)
+					} else {
+						r.Add("state_hash_overflow", 1)
 					}
 					if res.States == 2 || res.States == 40 || res.States%9973 == 1 {
 						r.Sample(map[string]any{"config": cfg.Name, "history": nh})
